@@ -4,7 +4,7 @@ import hashlib, json, os
 from hv.core import Broken
 
 MANIFEST = dict(
-    text="TLC exhausts Sys_Salamander (conn.go's ReadFrom/WriteTo with both mutexes and both shared buffers, salamander.go's mutex-guarded key-input buffer; 2 writers x 2 readers, junk datagrams) against the Prop_C13 monitor, and rejects model mutants (each mutex removed, early unlock, junk ends the loop, retry with the read mutex held; two per quick run, all six in thorough). A ReadFrom call that does not return within 45 s on the never-blocking inner socket is logged as ReadStalled and judged by the monitor (Delivery_Stalled if a well-formed packet is pending). The real WrapPacketConnSalamander runs over an in-memory inner socket: boundary/all payload lengths 1..2040, keys 4..100 bytes, junk 0..8 bytes, a pair of separately wrapped sockets, TLC-generated write/inject/read orders, and concurrent writers+readers on one socket. Every datagram on the inner socket is recorded; python hashlib supplies ks = BLAKE2b-256(key||salt); TLC validates every trace against the same monitor (XOR structure via Bitwise, counts, drop/retry, exactly-once arrival).",
+    text="TLC exhausts Sys_Salamander (conn.go's ReadFrom/WriteTo with both mutexes and both shared buffers, salamander.go's mutex-guarded key-input buffer; 2 writers x 2 readers, junk datagrams) against the Prop_C13 monitor, and rejects model mutants (each mutex removed, early unlock, junk ends the loop, retry with the read mutex held; two per quick run, all seven in thorough). A ReadFrom call that does not return within 45 s on the never-blocking inner socket is logged as ReadStalled and judged by the monitor (Delivery_Stalled if a well-formed packet is pending). The real WrapPacketConnSalamander runs over an in-memory inner socket: boundary/all payload lengths 1..2040, keys 4..100 bytes, junk 0..8 bytes, a pair of separately wrapped sockets, TLC-generated write/inject/read orders, and concurrent writers+readers on one socket. Every datagram on the inner socket is recorded; python hashlib supplies ks = BLAKE2b-256(key||salt); TLC validates every trace against the same monitor (XOR structure via Bitwise, counts, drop/retry, exactly-once arrival).",
     note="Trusted: TLC, python hashlib.blake2b as the oracle for the uninterpreted hash and for the full-length comparison of payloads longer than 96 bytes (TLC itself checks salt + first 64 and last 40 bytes of those, everything of shorter ones). A zero-length datagram is returned by ReadFrom as n=0 (not treated as surfacing). Concurrency faults in the real code are found by stress, not by controlled schedules; the exhaustive interleaving argument is the model's.",
     tech="TLA+ model checking (TLC) + TLC-generated scenario replay + independent hash oracle + TLC trace validation of real-code traces", ref="5/C13")
 
@@ -80,7 +80,7 @@ def run(ctx):
     ctx.tlc_mc("MC_Salamander", "MC_Salamander.cfg", coverage=T, workers=8)
     if T:
         ctx.tlc_mc("MC_Salamander", "MC_Salamander_big.cfg", timeout=1200)
-    muts = ("NoRMu", "NoWMu", "NoLk", "EarlyUnlock", "JunkReturn", "LockedRetry")
+    muts = ("NoRMu", "NoWMu", "NoLk", "EarlyUnlock", "JunkReturn", "LockedRetry", "KeyAlias")
     if not T:   # quick: two of the model mutants (rotating with the seed); thorough: all of them
         muts = [muts[ctx.seed % len(muts)], muts[(ctx.seed + 2) % len(muts)]]
     for m in muts:
